@@ -118,3 +118,59 @@ Proof. induction l as [|[c0 x] r IH]; intros s c I K H; [exact H|]. cbn [recover
     - destruct (recover_with_c0 s c0 x I (K c0)) as (_ & _ & C). auto.
     - eapply nonremote_frame; [apply recover_with_frame; auto|exact H]. }
   destruct (recover_with s c0 x) as [s1 [|]]; cbn [fst] in *; auto. apply IH; auto. now rewrite Hp. Qed.
+
+(* ---------- calls in flight as observed ---------- *)
+Lemma find_map {A B} (f : A -> B) (p : B -> bool) l : find p (map f l) = option_map f (find (fun a => p (f a)) l).
+Proof. induction l as [|a r IH]; [reflexivity|]. cbn. destruct (p (f a)); auto. Qed.
+
+Lemma call_obs_cid s cl : (let '(c, _, _, _) := call_obs s cl in c) = ccid cl.
+Proof. unfold call_obs. destruct (ckd cl); [destruct (aget (ccid cl) (table s))|..]; reflexivity. Qed.
+
+Lemma inflight_of_find s c0 : inflight_of (infobs s) c0 =
+  match find (fun cl => N.eqb (ccid cl) c0) (calls s) with
+  | Some cl => let '(_, k, d, _) := call_obs s cl in Some (k, d) | None => None end.
+Proof. unfold inflight_of, infobs. rewrite find_map.
+  assert (E : forall l, find (fun a => let '(c', _, _, _) := call_obs s a in N.eqb c' c0) l = find (fun cl => N.eqb (ccid cl) c0) l).
+  { induction l as [|a r IH]; [reflexivity|]. cbn [find]. rewrite IH. pose proof (call_obs_cid s a) as H.
+    destruct (call_obs s a) as [[[c k] d] t]. now rewrite H. }
+  rewrite E. destruct (find _ (calls s)) as [cl|]; [|reflexivity]. cbn. destruct (call_obs s cl) as [[[c k] d] t]. reflexivity. Qed.
+
+(* the call the monitor sees for c0 and the operation it belongs to *)
+Lemma inflight_kd s c0 k d : Inv s -> inflight_of (infobs s) c0 = Some (k, d) ->
+  exists cl o, In cl (calls s) /\ ccid cl = c0 /\ aget c0 (table s) = Some o /\ otyp o = kind_type (ckd cl) /\
+    (ckd cl = KPin -> k = 0 /\ d = if pdirect (opin o) then 1 else 0) /\ (ckd cl <> KPin -> k = 1).
+Proof. intros I H. rewrite inflight_of_find in H. destruct (find _ (calls s)) as [cl|] eqn:F; [|discriminate].
+  apply find_some in F. destruct F as [Hin Hc]. apply N.eqb_eq in Hc. destruct (inv_calls _ I _ Hin) as (o & Ho & _ & _ & Hty).
+  rewrite Hc in Ho. exists cl, o. split; auto. split; auto. split; auto. split; auto.
+  unfold call_obs in H. rewrite Hc, Ho in H. destruct (ckd cl); injection H as <- <-; split; try congruence; auto. Qed.
+
+Lemma inflight_none s c0 : inflight_of (infobs s) c0 = None -> forall cl, In cl (calls s) -> ccid cl <> c0.
+Proof. intros H cl Hin Hc. exact (inflight_of_model s c0 cl Hin Hc H). Qed.
+
+Lemma conn_pin_snd i c d : snd (conn_pin i c d) = negb (d && match aget c i with Some false => true | _ => false end).
+Proof. unfold conn_pin. destruct (aget c i) as [[|]|]; destruct d; reflexivity. Qed.
+
+(* ---------- listing entries ---------- *)
+Lemma st_bits_4 x : st_bits x = 4 -> x = SPinError. Proof. destruct x; cbn; intros; try discriminate; reflexivity. Qed.
+Lemma listing_obs s c : aget c (status_all_obs s 0) = match listed s c with Some x => Some (st_bits x) | None => None end.
+Proof. unfold status_all_obs, listed. apply aget_map_snd. Qed.
+
+Lemma listing_pin_error s c : Inv s -> LInv false s -> aget c (status_all_obs s 0) = Some 4 ->
+  exists o, aget c (table s) = Some o /\ otyp o = OPin /\ oph o = PError.
+Proof. intros I L H. rewrite listing_obs, (listed_entry s c (inv_nodup _ I) (li_pnodup _ _ L)) in H. unfold entry_of in H.
+  destruct (aget c (table s)) as [o|].
+  - exists o. split; auto. assert (E : st_bits (op_status o) = 4) by congruence. apply st_bits_4 in E. unfold op_status in E.
+    destruct (otyp o), (oph o); try discriminate; auto.
+  - exfalso. destruct (aget c (pinset s)) as [p|]; [|discriminate]. destruct (pmeta p); [discriminate|]. destruct (premote p); [discriminate|].
+    destruct (ipfs_has s c (pdirect p)); discriminate. Qed.
+Lemma listing_of_pin_error s c o : Inv s -> LInv false s -> aget c (table s) = Some o -> otyp o = OPin -> oph o = PError ->
+  aget c (status_all_obs s 0) = Some 4.
+Proof. intros I L Ho T P. rewrite listing_obs, (listed_entry s c (inv_nodup _ I) (li_pnodup _ _ L)). unfold entry_of. rewrite Ho.
+  unfold op_status. now rewrite T, P. Qed.
+Lemma listing_unexpected s c p : Inv s -> LInv false s -> aget c (table s) = None -> aget c (pinset s) = Some p ->
+  pmeta p = false -> premote p = false -> ipfs_has s c (pdirect p) = false -> aget c (status_all_obs s 0) = Some 4096.
+Proof. intros I L Hn Hp Hm Hr Hh. rewrite listing_obs, (listed_entry s c (inv_nodup _ I) (li_pnodup _ _ L)). unfold entry_of.
+  now rewrite Hn, Hp, Hm, Hr, Hh. Qed.
+
+Lemma dm_mode s c d : optN_eqb (aget c (dmobs s)) (Some (mode_code d)) = ipfs_has s c d.
+Proof. unfold dmobs, ipfs_has. rewrite aget_map_snd. destruct (aget c (ipfs s)) as [[|]|]; destruct d; reflexivity. Qed.
